@@ -26,6 +26,11 @@ class Prop:
     level_text = ""
     quick_budget_s = 60
     thorough_budget_s = 600
+    # shared session fuzzer (harness/fuzz.py): observation kinds of the timed model that matter to this
+    # property (None = the property is not about the timed sessions), and whether their times do
+    fuzz_kinds = None
+    fuzz_times = True
+    fuzz_n = (25, 400)
 
     def corpus(self):
         return []
@@ -162,6 +167,11 @@ def run_check(prop, tier, seed, replay=None):
             if time.time() > deadline:
                 notes.append("case generation stopped at time budget")
                 break
+        if prop.fuzz_kinds is not None:
+            from harness import fuzz
+            frng = random.Random(seed * 7919 + int(prop.id[1:]) * 104729 + 17)
+            for _ in range(prop.fuzz_n[0] if tier == "quick" else prop.fuzz_n[1]):
+                reqs.append(fuzz.session(frng))
     evaluations = 0
     disagreements = []
     violations = []
@@ -170,9 +180,14 @@ def run_check(prop, tier, seed, replay=None):
     distinct = set()
     samples = []
     impl_replies = []
+    def handler(r):
+        if isinstance(r, dict) and r.get("fuzz"):
+            from harness import fuzz
+            return fuzz.handler_for(prop)
+        return prop
     for r in reqs:
-        impl_replies.append(safe_impl(prop, r))
-    model_reqs = [(i, prop.to_model(r)) for i, r in enumerate(reqs)]
+        impl_replies.append(safe_impl(handler(r), r))
+    model_reqs = [(i, handler(r).to_model(r)) for i, r in enumerate(reqs)]
     model_reqs = [(i, m) for i, m in model_reqs if m is not None]
     model_replies = {}
     if driver_ok:
@@ -184,19 +199,19 @@ def run_check(prop, tier, seed, replay=None):
     for i, r in enumerate(reqs):
         ir = impl_replies[i]
         evaluations += 1
-        hist[prop.tag(r, ir)] += 1
+        hist[handler(r).tag(r, ir)] += 1
         if "harness_crash" in ir:
             broken.append({"what": "harness crashed running the implementation", "detail": ir, "request": r})
             continue
-        if prop.nontrivial(r, ir):
+        if handler(r).nontrivial(r, ir):
             distinct.add(core.key_of(r))
         if len(samples) < 3 and i >= len(reqs) // 2:
             samples.append({"request": r, "impl": ir})
         if i in model_replies:
-            d = prop.compare(r, ir, model_replies[i])
+            d = handler(r).compare(r, ir, model_replies[i])
             if d:
                 disagreements.append({"request": r, "diff": d})
-        v = prop.oracle(r, ir)
+        v = handler(r).oracle(r, ir)
         if v:
             f = prop.known(r, v, findings)
             (knowns if f else violations).append({"request": r, "violation": v, "finding": f and f["id"]})
